@@ -1179,3 +1179,125 @@ Proof.
   pose proof (Scells (idx (m_shape m) c)) as Sc. unfold resolve. rewrite Sfm, FV.
   destruct (nth (idx (m_shape m) c) (a_cells a) Undef); simpl in *; auto.
 Qed.
+
+(* ---- every operation preserves the relation; histories ------------------------------------------------- *)
+Definition op_dom (rank : nat) (o : op) : Prop :=
+  match o with
+  | OpMode md => md <> NC_NOFILL
+  | OpWrite us st sd ct vals =>
+      us = false /\ length st = rank /\ length ct = rank /\ length vals = Z.to_nat (prod ct)
+  | OpRead us st sd ct => us = false /\ length st = rank /\ length ct = rank
+  | _ => True
+  end.
+
+Definition out_sim (so : sout) (mo : mout) : Prop :=
+  match so, mo with
+  | SNone, MNone => True
+  | SRet r, MRet rc _ => ret_ok r rc
+  | SRead r cs, MRead rc cells _ => ret_ok r rc /\ (r = ROk -> Forall2 out_agree cs cells)
+  | SInfo dims fv, MInfo mdims mfv => Forall2 (fun iv d => fst iv <= d <= snd iv) dims mdims /\ fv = mfv
+  | _, _ => False
+  end.
+
+Lemma sim_step : forall a m o, sim a m -> op_dom (length (m_shape m)) o ->
+  sim (fst (s_step a o)) (fst (m_step m o)) /\ out_sim (snd (s_step a o)) (snd (m_step m o)).
+Proof.
+  intros a m o S D. destruct o as [md | v | b | us st sd ct vals | us st sd ct | |]; cbn [s_step m_step op_dom] in *.
+  - (* SDsetfillmode, not NOFILL *)
+    pose proof S as [Sshape Sfix Sfm Suf Sdf Sok Srank Slen Scells Sfresh Sempty].
+    pose proof Sok as [Hr [Hnf [He [Hsh Hst]]]].
+    assert (E1 : (if md =? 0 then true else if md =? 256 then false else a_fillmode a) = true).
+    { rewrite Sfm. destruct (md =? 0); auto. destruct (md =? 256) eqn:E; auto. apply Z.eqb_eq in E.
+      unfold NC_NOFILL in D. congruence. }
+    assert (E2 : (if md =? NC_NOFILL then true else if md =? NC_FILL then false else m_nofill m) = false).
+    { rewrite Hnf. destruct (md =? NC_NOFILL) eqn:E; [apply Z.eqb_eq in E; congruence |]. destruct (md =? NC_FILL); auto. }
+    rewrite E1, E2. cbn [fst snd]. split; [| exact I].
+    apply (sim_state_same _ m); [| reflexivity | repeat split; auto].
+    rewrite <- Sfm. destruct a; exact S.
+  - (* SDsetfillvalue *)
+    pose proof S as [Sshape Sfix Sfm Suf Sdf Sok Srank Slen Scells Sfresh Sempty].
+    pose proof Sok as [Hr [Hnf [He [Hsh Hst]]]].
+    cbn [fst snd]. split; [| exact I].
+    set (m' := mkM (m_shape m) (m_esz m) (m_numrecs m) (Some v) (m_dfill m) (m_nofill m) (m_store m) (m_recsize m)).
+    assert (Fo : fill_of m' = v) by reflexivity.
+    assert (Nc : Ncells m' = Ncells m) by reflexivity.
+    assert (Bs : m_store m <> [] -> base m' = base m).
+    { intros NE. unfold base, m'. cbn [m_store]. destruct (m_store m); [congruence | reflexivity]. }
+    constructor; cbn [a_shape a_unlim a_fillmode a_userfill a_dfill a_cells a_touched m_shape m_fillattr m_dfill m_store]; auto.
+    + destruct (a_touched a); [rewrite map_length |]; rewrite Nc; auto.
+    + intros i. rewrite Fo. destruct (a_touched a) eqn:T.
+      * rewrite (nth_map_cell (fun x => match x with Fill | Unwr => Undef | y => y end)) by reflexivity.
+        pose proof (Scells i) as Sc. destruct (nth i (a_cells a) Undef) eqn:Ec; simpl; auto.
+        (* a written value: the element has data, its content does not depend on the fill value *)
+        assert (NE : m_store m <> []).
+        { intro E0. specialize (Sempty E0). rewrite Forall_forall in Sempty.
+          assert (Li : (i < length (a_cells a))%nat) by (apply nth_not_default; rewrite Ec; discriminate).
+          destruct (Sempty (nth i (a_cells a) Undef) (nth_In _ _ Li)) as [C | C]; rewrite Ec in C; discriminate. }
+        rewrite (Bs NE). exact Sc.
+      * specialize (Sfresh eq_refl). specialize (Sempty Sfresh). rewrite Forall_forall in Sempty.
+        destruct (Nat.lt_ge_cases i (length (a_cells a))) as [Li | Li].
+        -- destruct (Sempty (nth i (a_cells a) Undef) (nth_In _ _ Li)) as [C | C]; rewrite C; simpl; auto.
+           unfold base, m'. cbn [m_store]. rewrite Sfresh. unfold fullfill. rewrite nth_repeat_lt by (change (Ncells (mkM (m_shape m) (m_esz m) (m_numrecs m) (Some v) (m_dfill m) (m_nofill m) [] (m_recsize m))) with (Ncells m); rewrite <- Slen; auto).
+           reflexivity.
+        -- rewrite nth_overflow by lia. exact I.
+    + intros E. destruct (a_touched a) eqn:T; auto.
+      apply Forall_forall. intros c Hc. apply in_map_iff in Hc. destruct Hc as [x [<- Hx]].
+      specialize (Sempty E). rewrite Forall_forall in Sempty. destruct (Sempty x Hx) as [-> | ->]; auto.
+  - (* SDsetblocksize *)
+    cbn [fst snd]. split; [exact S | exact I].
+  - (* SDwritedata *)
+    destruct D as [-> [D1 [D2 D3]]].
+    destruct (sim_write a m st sd ct vals S D1 D2 D3) as [W1 [rc [tr [W2 W3]]]].
+    destruct (s_write a st (ones st) ct vals) as [r a']. cbn [fst snd] in *.
+    split; auto. rewrite W2. exact W3.
+  - (* SDreaddata *)
+    destruct D as [-> [D1 D2]].
+    destruct (sim_read a m st sd ct S D1 D2) as [R1 [rc [cells [tr [R2 [R3 R4]]]]]].
+    destruct (s_read a st (ones st) ct) as [r cs]. cbn [fst snd] in *.
+    split; auto. rewrite R2. split; auto.
+  - (* SDgetinfo + SDgetfillvalue *)
+    pose proof S as [Sshape Sfix Sfm Suf Sdf Sok Srank Slen Scells Sfresh Sempty].
+    pose proof Sok as [Hr _].
+    cbn [fst snd]. split; [exact S |]. rewrite Sshape, Sfix, Hr. split; auto.
+    destruct (m_shape m) as [| d ds]; constructor. simpl; lia.
+    clear. induction ds; simpl; constructor; auto. simpl; lia.
+  - (* SDend + SDstart *)
+    pose proof S as [Sshape Sfix Sfm Suf Sdf Sok Srank Slen Scells Sfresh Sempty].
+    pose proof Sok as [Hr [Hnf [He [Hsh Hst]]]].
+    cbn [fst snd]. split; [| exact I]. rewrite Hr.
+    apply (sim_state_same _ m); [| reflexivity | repeat split; auto].
+    rewrite <- Sfm. destruct a; exact S.
+Qed.
+
+Lemma s_step_shape : forall a o, a_shape (fst (s_step a o)) = a_shape a.
+Proof.
+  intros a o. destruct o; cbn [s_step fst a_shape]; auto.
+  - unfold s_write.
+    destruct (negb (well_formed (if us then stride else ones start) count)); [reflexivity |].
+    destruct (inner_in a start (if us then stride else ones start) count); reflexivity.
+  - destruct (s_read a start (if us then stride else ones start) count). reflexivity.
+Qed.
+
+Lemma run_sim : forall ops a m, sim a m -> Forall (op_dom (length (m_shape m))) ops ->
+  Forall2 out_sim (s_run a ops) (m_run m ops).
+Proof.
+  induction ops as [| o ops IH]; intros a m S D. constructor.
+  inversion D as [| ? ? Do Dr]; subst. cbn [s_run m_run].
+  destruct (sim_step a m o S Do) as [S' O'].
+  pose proof (s_step_shape a o) as Ea.
+  destruct (s_step a o) as [a' so]. destruct (m_step m o) as [m' mo]. cbn [fst snd] in *.
+  constructor; auto. apply IH; auto.
+  replace (m_shape m') with (m_shape m); auto.
+  rewrite <- (sim_shape _ _ S), <- (sim_shape _ _ S'). auto.
+Qed.
+
+(** The implementation model refines the array specification on whole histories (fixed-size dataset, fill mode,
+    unit-stride requests): every return code, every defined cell read and every extent agree. *)
+Lemma sd_refines_array_lemma : forall shape nt ops,
+  (0 < length shape)%nat -> Forall (fun d => 1 <= d) shape ->
+  (exists s, nt_size nt = Some s /\ 0 < s) ->
+  Forall (op_dom (length shape)) ops ->
+  Forall2 out_sim (s_run (s_init shape false (default_fill nt)) ops) (m_run (m_init shape false nt) ops).
+Proof.
+  intros shape nt ops Hn Hsh Hnt D. apply run_sim. apply sim_init; auto. exact D.
+Qed.
